@@ -4,11 +4,13 @@ bounds.  Helper lemmas live in `Lemmas/C16.lean` (bookkeeping over ℚ) and `Ana
 (Lagrange remainders over ℝ).
 -/
 import GemseoVerif.Lemmas.C16
+import GemseoVerif.Lemmas.C16Complex
 import GemseoVerif.Analysis.C16
 import GemseoVerif.Analysis.C16Complex
 import Mathlib.Data.Rat.Cast.Order
 import Mathlib.Data.Real.Basic
 import Mathlib.Tactic.NormNum
+import Mathlib.Analysis.Calculus.Deriv.Polynomial
 
 namespace GV.C16
 
@@ -559,5 +561,111 @@ example : (aeval (((2 : ℝ) : ℂ) + ((1 / 8 : ℝ) : ℂ) * I) (X ^ 2 + C 3 * 
       · simp
       · exact (natDegree_C_mul_le _ _).trans (by simp)
     exact this)
+
+/-! ### The model's complex-step Jacobian on polynomial functions, every degree -/
+
+/-- Entry `(j, k)` of the model's complex-step Jacobian of a polynomial function. -/
+theorem cs_model_entry (ps : List Poly) (x : Vec) (s : Step) (idx : List Nat) (k j : Nat)
+    (hk : k < (effIndices x.length idx).length)
+    (hi : (effIndices x.length idx)[k] < x.length) (hj : j < ps.length) :
+    getR ((csGrad (polyFunG ps) x s idx).getD k []) j =
+      (ps[j].evalG (cadd x (csPert x.length x s (effIndices x.length idx)[k]))).im
+        / csDelta x s (effIndices x.length idx)[k] := by
+  rw [List.getD_eq_getElem?_getD, columns_match_indices_cs _ x s idx k hk hi]
+  simp only [Option.getD_some, getR, polyFunG, List.map_map, List.getD_eq_getElem?_getD,
+    List.getElem?_map, List.getElem?_eq_getElem hj, Option.map_some, Function.comp]
+
+open Polynomial Complex in
+/-- **Complex step of the model on polynomial functions is exact up to `δ²` for every degree**:
+    entry `(j, k)` minus the partial derivative (the derivative at `x_i` of the restriction
+    `polyLine` of output `j` to the coordinate line of component `i = x_indices[k]`, see
+    `polyLine_eval`) equals `δ² · csRemainder`, `δ = x_i·h` (or `h` if `x_i = 0`) the relative
+    step. -/
+theorem cs_model_exact_up_to_h2 (ps : List Poly) (x : Vec) (s : Step) (idx : List Nat)
+    (k j : Nat) (hk : k < (effIndices x.length idx).length)
+    (hi : (effIndices x.length idx)[k] < x.length) (hj : j < ps.length)
+    (hδ : csDelta x s (effIndices x.length idx)[k] ≠ 0) (N : ℕ)
+    (hN : (polyLine ps[j] x (effIndices x.length idx)[k]).natDegree < N) (hN2 : 2 ≤ N) :
+    ((getR ((csGrad (polyFunG ps) x s idx).getD k []) j : ℚ) : ℝ)
+        - (derivative (polyLine ps[j] x (effIndices x.length idx)[k])).eval
+            ((getR x (effIndices x.length idx)[k] : ℚ) : ℝ)
+      = ((csDelta x s (effIndices x.length idx)[k] : ℚ) : ℝ) ^ 2 *
+          Analysis.csRemainder (polyLine ps[j] x (effIndices x.length idx)[k])
+            ((getR x (effIndices x.length idx)[k] : ℚ) : ℝ)
+            ((csDelta x s (effIndices x.length idx)[k] : ℚ) : ℝ) N := by
+  have hδ' : ((csDelta x s (effIndices x.length idx)[k] : ℚ) : ℝ) ≠ 0 := by exact_mod_cast hδ
+  have h := cs_polynomial_exact_up_to_h2 (polyLine ps[j] x (effIndices x.length idx)[k])
+    ((getR x (effIndices x.length idx)[k] : ℚ) : ℝ)
+    ((csDelta x s (effIndices x.length idx)[k] : ℚ) : ℝ) hδ' N hN hN2
+  have ha := polyLine_aeval ps[j] x s (effIndices x.length idx)[k] hi
+  simp only [castC_apply] at ha
+  rw [ha, GRat.toC_im] at h
+  rw [cs_model_entry ps x s idx k j hk hi hj, Rat.cast_div]
+  exact h
+
+/-- The line polynomial really is output `j` restricted to the line of component `i`: it takes the
+    model's rational values at every rational abscissa (hence its derivative at `x_i` is the
+    partial derivative the Jacobian entry approximates). -/
+theorem cs_model_line_interpolates (p : Poly) (x : Vec) (i : Nat) (hi : i < x.length) (t : ℚ) :
+    (polyLine p x i).eval (t : ℝ) = ((p.eval (x.set i t) : ℚ) : ℝ) :=
+  polyLine_eval p x i hi t
+
+example : getR ((csGrad (polyFunG [[⟨1, [3, 0]⟩]]) [2, 5] (.scalar (1/4)) [0]).getD 0 []) 0
+    = 3 * 2 ^ 2 - (2 * (1/4)) ^ 2 := by decide +kernel
+
+/-! ### The model's finite-difference Jacobians on polynomial functions (what the oracle checks) -/
+
+theorem getR_polyFun (ps : List Poly) (y : Vec) (j : Nat) (hj : j < ps.length) :
+    getR (polyFun ps y) j = ps[j].eval y := by
+  simp [getR, polyFun, List.getD_eq_getElem?_getD, List.getElem?_eq_getElem hj]
+
+open Set Polynomial in
+/-- **Forward differences of the model on polynomial functions are first-order accurate**:
+    entry `(j, k)` differs from the partial derivative by at most `|d|/2 · M`, `d` the signed step of
+    component `i = x_indices[k]`, `M` any bound of `|∂²p_j/∂x_i²|` between `x_i` and `x_i + d`. -/
+theorem fd_poly_first_order (ps : List Poly) (sp : Option Space) (x : Vec) (s : Step)
+    (idx : List Nat) (k j : Nat) (hk : k < (effIndices x.length idx).length)
+    (hi : (effIndices x.length idx)[k] < x.length) (hj : j < ps.length)
+    (hd : fdStep sp x s (effIndices x.length idx)[k] ≠ 0) (M : ℝ)
+    (hM : ∀ t ∈ uIcc ((getR x (effIndices x.length idx)[k] : ℚ) : ℝ)
+        ((getR x (effIndices x.length idx)[k] : ℚ) + ((fdStep sp x s (effIndices x.length idx)[k] : ℚ) : ℝ)),
+        |(derivative (derivative (polyLine ps[j] x (effIndices x.length idx)[k]))).eval t| ≤ M) :
+    |((getR ((fdGrad (polyFun ps) sp x s idx).getD k []) j : ℚ) : ℝ)
+        - (derivative (polyLine ps[j] x (effIndices x.length idx)[k])).eval
+            ((getR x (effIndices x.length idx)[k] : ℚ) : ℝ)|
+      ≤ |((fdStep sp x s (effIndices x.length idx)[k] : ℚ) : ℝ)| / 2 * M := by
+  refine fd_model_first_order (polyFun ps) sp x s idx k j hk (by simp [polyFun])
+    (fun t => (polyLine ps[j] x (effIndices x.length idx)[k]).eval t)
+    (fun t => (derivative (polyLine ps[j] x (effIndices x.length idx)[k])).eval t)
+    (fun t => (derivative (derivative (polyLine ps[j] x (effIndices x.length idx)[k]))).eval t)
+    M hd ?_ (fun t _ => Polynomial.hasDerivAt _ t) (fun t _ => Polynomial.hasDerivAt _ t) hM
+  intro t
+  rw [getR_polyFun ps _ j hj, bump, ← Rat.cast_add, polyLine_eval _ x _ hi]
+
+open Set Polynomial in
+/-- **Centered differences of the model on polynomial functions are second-order accurate**
+    wherever the two symmetric points are used. -/
+theorem cd_poly_second_order (ps : List Poly) (sp : Option Space) (x : Vec) (s : Step)
+    (idx : List Nat) (k j : Nat) (hk : k < (effIndices x.length idx).length)
+    (hi : (effIndices x.length idx)[k] < x.length) (hj : j < ps.length)
+    (hp : cdPlus sp x s (effIndices x.length idx)[k] = s.at (effIndices x.length idx)[k])
+    (hq : cdMinus sp x s (effIndices x.length idx)[k] = -(s.at (effIndices x.length idx)[k]))
+    (hh : 0 < s.at (effIndices x.length idx)[k]) (M : ℝ)
+    (hM : ∀ t ∈ Icc (((getR x (effIndices x.length idx)[k] : ℚ) : ℝ) - ((s.at (effIndices x.length idx)[k] : ℚ) : ℝ))
+        ((getR x (effIndices x.length idx)[k] : ℚ) + ((s.at (effIndices x.length idx)[k] : ℚ) : ℝ)),
+        |(derivative (derivative (derivative (polyLine ps[j] x (effIndices x.length idx)[k])))).eval t| ≤ M) :
+    |((getR ((cdGrad (polyFun ps) sp x s idx).getD k []) j : ℚ) : ℝ)
+        - (derivative (polyLine ps[j] x (effIndices x.length idx)[k])).eval
+            ((getR x (effIndices x.length idx)[k] : ℚ) : ℝ)|
+      ≤ ((s.at (effIndices x.length idx)[k] : ℚ) : ℝ) ^ 2 / 6 * M := by
+  refine cd_model_second_order (polyFun ps) sp x s idx k j hk hi (by simp [polyFun]) hp hq hh
+    (fun t => (polyLine ps[j] x (effIndices x.length idx)[k]).eval t)
+    (fun t => (derivative (polyLine ps[j] x (effIndices x.length idx)[k])).eval t)
+    (fun t => (derivative (derivative (polyLine ps[j] x (effIndices x.length idx)[k]))).eval t)
+    (fun t => (derivative (derivative (derivative (polyLine ps[j] x (effIndices x.length idx)[k])))).eval t)
+    M ?_ (fun t _ => Polynomial.hasDerivAt _ t) (fun t _ => Polynomial.hasDerivAt _ t)
+    (fun t _ => Polynomial.hasDerivAt _ t) hM
+  intro t
+  rw [getR_polyFun ps _ j hj, bump, ← Rat.cast_add, polyLine_eval _ x _ hi]
 
 end GV.C16
